@@ -1,12 +1,120 @@
 package main
 
+import (
+	"fmt"
+	"go/ast"
+	"go/token"
+	"strings"
+)
+
+const c20Life = "pkg/controllers/nodeclaim/lifecycle"
+
 func init() {
-	register([]string{"pkg/state/nodepoolhealth"}, func(g *gen) {
+	register([]string{"pkg/state/nodepoolhealth", c20Life}, func(g *gen) {
 		// ---- C20: registration health window ----
 		g.natConst("Health", "pkg/state/nodepoolhealth", "BufferSize", "bufferSize")
 		g.ratioConst("Health", "pkg/state/nodepoolhealth", "ThresholdFalse", "thresholdFalse")
 		g.natConst("Health", "pkg/state/nodepoolhealth", "StatusUnknown", "statusUnknown")
 		g.natConst("Health", "pkg/state/nodepoolhealth", "StatusHealthy", "statusHealthy")
 		g.natConst("Health", "pkg/state/nodepoolhealth", "StatusUnhealthy", "statusUnhealthy")
+		// ---- C20: who records a launch outcome, and when ----
+		// the sub-reconcilers of the nodeclaim lifecycle controller in the order one pass runs them (the model of a pass
+		// folds over this list: registration must see the Node before liveness judges the timeouts)
+		g.c20ReconcilerOrder("Health", "lifecycleOrder")
+		// inside the two updateNodePoolRegistrationHealth functions: the outcome is recorded (Update) after the status
+		// patch went through, and not in a defer (a failed patch returns before it: the retry records it, once)
+		g.c20CallSeq("Health", c20Life, "Liveness.updateNodePoolRegistrationHealth", "livenessHealthCalls",
+			[]string{"kubeClient.Get", "DryRun", "Patch", "Update"})
+		g.c20CallSeq("Health", c20Life, "Registration.updateNodePoolRegistrationHealth", "registrationHealthCalls",
+			[]string{"kubeClient.Get", "DryRun", "SetTrue", "Patch", "Update"})
+		// Liveness.Reconcile: each timeout branch records, then deletes
+		g.c20CallSeq("Health", c20Life, "Liveness.Reconcile", "livenessCalls",
+			[]string{"updateNodePoolRegistrationHealth", "deleteNodeClaimForTimeout"})
+		// Registration.Reconcile: Registered=True is set on the NodeClaim before the NodePool is updated
+		g.c20CallSeq("Health", c20Life, "Registration.Reconcile", "registrationCalls",
+			[]string{"SetTrue", "updateNodePoolRegistrationHealth"})
 	})
+}
+
+// c20ReconcilerOrder emits the field names of the sub-reconciler slice literal ranged over in Controller.Reconcile.
+func (g *gen) c20ReconcilerOrder(group, lean string) {
+	_, fd := g.findFunc(c20Life, "Controller.Reconcile")
+	if fd == nil {
+		return
+	}
+	var names []string
+	var pos token.Pos
+	loops := 0
+	ast.Inspect(fd.Body, func(n ast.Node) bool {
+		rs, ok := n.(*ast.RangeStmt)
+		if !ok {
+			return true
+		}
+		cl, ok := rs.X.(*ast.CompositeLit)
+		if !ok {
+			return true
+		}
+		if _, isArr := cl.Type.(*ast.ArrayType); !isArr {
+			return true
+		}
+		loops++
+		pos = cl.Pos()
+		for _, e := range cl.Elts {
+			names = append(names, strings.TrimPrefix(exprString(e), "c."))
+		}
+		return true
+	})
+	if loops != 1 {
+		g.errf("%s.Controller.Reconcile: expected exactly one loop over a slice literal of sub-reconcilers, found %d", c20Life, loops)
+		return
+	}
+	b := g.out(group)
+	fmt.Fprintf(b, "/-- the sub-reconcilers one pass of `nodeclaim.lifecycle` `Controller.Reconcile` runs, in order (%s) -/\ndef %s : List String := [", g.pos(pos), lean)
+	for i, s := range names {
+		if i > 0 {
+			b.WriteString(", ")
+		}
+		b.WriteString(leanStr(s))
+	}
+	b.WriteString("]\n\n")
+}
+
+// c20CallSeq is callSeq that also tells a deferred call ("defer Update") from a call made in place.
+func (g *gen) c20CallSeq(group, pkgPath, fn, lean string, suffixes []string) {
+	_, fd := g.findFunc(pkgPath, fn)
+	if fd == nil {
+		return
+	}
+	deferred := map[*ast.CallExpr]bool{}
+	var seq []string
+	ast.Inspect(fd.Body, func(n ast.Node) bool {
+		if ds, ok := n.(*ast.DeferStmt); ok {
+			deferred[ds.Call] = true
+			return true
+		}
+		ce, ok := n.(*ast.CallExpr)
+		if !ok {
+			return true
+		}
+		name := exprString(ce.Fun)
+		for _, s := range suffixes {
+			if name == s || strings.HasSuffix(name, "."+s) {
+				if deferred[ce] {
+					s = "defer " + s
+				}
+				seq = append(seq, s)
+				break
+			}
+		}
+		return true
+	})
+	b := g.out(group)
+	fmt.Fprintf(b, "/-- order of the calls %v inside `%s.%s` (%s); \"defer x\" = the call is deferred -/\ndef %s : List String := [", suffixes, pkgPath, fn, g.pos(fd.Pos()), lean)
+	for i, s := range seq {
+		if i > 0 {
+			b.WriteString(", ")
+		}
+		b.WriteString(leanStr(s))
+	}
+	b.WriteString("]\n\n")
 }
